@@ -15,12 +15,13 @@ import (
 const vrfNow = int64(1600000000) * int64(time.Second)
 
 // vrfCluster: n up stores (ids 1..n) on real BasicCluster / PersistOptions via mockcluster.
-func vrfCluster(n int, joint bool) *mockcluster.Cluster {
+func vrfCluster(n int, joint bool, useJoint ...bool) *mockcluster.Cluster {
 	v.FixClock(vrfNow) // store health is not the subject here: all stores heartbeat "now"
 	cfg := &config.Config{}
 	cfg.Replication.MaxReplicas = 3
 	cfg.Schedule.StoreLimit = map[uint64]config.StoreLimitConfig{}
 	cfg.Schedule.MaxStoreDownTime.Duration = 30 * time.Minute
+	cfg.Schedule.EnableJointConsensus = len(useJoint) > 0 && useJoint[0]
 	cfg.ClusterVersion = *versioninfo.MinSupportedVersion(versioninfo.JointConsensus)
 	tc := mockcluster.NewCluster(context.Background(), config.NewPersistOptions(cfg))
 	if !joint {
